@@ -96,6 +96,12 @@ def comm_to_prog(b: dict, pid: str, tagkind: str = "str") -> dict:
                 h = hold(data[i], s["dst"], s["tag"], h)
             out = add({"k": "op", "args": [h] + feeds})
         outs = [["out", out]]
+        # an extra overall output that is a materialised array other parts read too
+        eo = (b.get("eo") or [0] * n)[r]
+        if eo == 1 or (eo == 2 and base == x):
+            outs.append(["x_unchanged", x])
+        elif eo == 2:
+            outs.append(["stored_base", base])
         for j, rv in enumerate(b["recvs"], 1):
             if j in raw and rv["use"] in ("asout", "both"):
                 outs.append([f"r{j}", raw[j]])
@@ -104,11 +110,11 @@ def comm_to_prog(b: dict, pid: str, tagkind: str = "str") -> dict:
             "gen": {k: b[k] for k in ("faults", "wf", "why", "affected", "expect", "levels",
                                       "abs") if k in b},
             "comm": {"sends": b["sends"], "recvs": b["recvs"], "stored": b["stored"],
-                     "staple": b["staple"]}}
+                     "staple": b["staple"], "eo": b.get("eo")}}
 
 
 def behaviour_id(b: dict) -> str:
-    core = {k: b[k] for k in ("n", "sends", "recvs", "stored", "staple", "faults")}
+    core = {k: b.get(k) for k in ("n", "sends", "recvs", "stored", "staple", "eo", "faults")}
     return format(zlib.crc32(json.dumps(core, sort_keys=True).encode()), "08x")
 
 
@@ -179,6 +185,10 @@ class _B:
         if shape is not None:
             nd["shape"] = shape
         self.nodes.append(nd)
+        return len(self.nodes) - 1
+
+    def dw(self, *vals: int) -> int:
+        self.nodes.append({"k": "dw", "vals": list(vals)})
         return len(self.nodes) - 1
 
     def recv(self, src: int, tag: int, v: int = 0, shape: list[int] | None = None) -> int:
@@ -461,6 +471,89 @@ def _library(tk: str) -> Iterable[dict]:
     w = bs[3].inp()
     bs[3].out("out", bs[3].op(w, bs[3].recv(2, 1)))
     yield _prog(f"lib/uneven_paths{sfx}", bs, tk)
+
+    # an overall output that is a materialised array computed / available in an
+    # early part and read again by a later part (after the reply arrived): the
+    # input unchanged, an ImplStored intermediate, a data wrapper, received data
+    def replier() -> _B:
+        b = _B()
+        y = b.inp()
+        rv = b.recv(0, 1)
+        b.out("out", b.hold(b.op(rv, y), 0, 2, b.op(y, rv)))
+        return b
+    b0 = _B()
+    x = b0.inp()
+    back = b0.recv(1, 2)
+    b0.out("out", b0.hold(b0.op(x), 1, 1, b0.op(x, back)))
+    b0.out("x_unchanged", x)
+    yield _prog(f"lib/out_is_input_read_later{sfx}", [b0, replier()], tk)
+
+    b0 = _B()
+    x = b0.inp()
+    m = b0.op(x, st=1)
+    back = b0.recv(1, 2)
+    b0.out("out", b0.hold(b0.op(m), 1, 1, b0.op(m, back)))
+    b0.out("m", m)
+    yield _prog(f"lib/out_is_stored_read_later{sfx}", [b0, replier()], tk)
+
+    b0 = _B()
+    x = b0.inp()
+    d = b0.dw(5, 7)
+    back = b0.recv(1, 2)
+    b0.out("out", b0.hold(b0.op(d, x), 1, 1, b0.op(d, back)))
+    b0.out("d", d)
+    yield _prog(f"lib/out_is_data_read_later{sfx}", [b0, replier()], tk)
+
+    b0, b1 = _B(), _B()
+    x = b0.inp()
+    got = b0.recv(1, 1)
+    back = b0.recv(1, 3)
+    b0.out("out", b0.hold(b0.op(got), 1, 2, b0.op(got, back, x)))
+    b0.out("got", got)
+    y = b1.inp()
+    rv = b1.recv(0, 2)
+    o = b1.hold(b1.op(y), 0, 1, b1.op(y, rv))
+    b1.out("out", b1.hold(b1.op(rv), 0, 3, o))
+    yield _prog(f"lib/out_is_recv_read_later{sfx}", [b0, b1], tk)
+
+    # one array sent by several sends of one part, sends of another array
+    # between them in holder order (both orders, 2-3 sends of the shared array,
+    # other destination / same destination under two tags)
+    def sink(*src_tag: tuple) -> _B:
+        b = _B()
+        y = b.inp()
+        b.out("out", b.op(y, *[b.recv(s_, t_) for s_, t_ in src_tag]))
+        return b
+    b0 = _B()
+    x = b0.inp()
+    shared, other = b0.op(x), b0.op(x)
+    o = b0.op(x)
+    for data_, dst, tag in ((shared, 1, 1), (other, 1, 2), (shared, 2, 3)):
+        o = b0.hold(data_, dst, tag, o)
+    b0.out("out", o)
+    yield _prog(f"lib/shared_array_interleaved{sfx}",
+                [b0, sink((0, 1), (0, 2)), sink((0, 3))], tk)
+
+    b0 = _B()
+    x = b0.inp()
+    shared, other = b0.op(x), b0.op(x)
+    o = b0.op(x)
+    for data_, dst, tag in ((other, 2, 1), (shared, 1, 1), (other, 1, 2), (shared, 1, 3)):
+        o = b0.hold(data_, dst, tag, o)
+    b0.out("out", o)
+    yield _prog(f"lib/shared_arrays_alternating{sfx}",
+                [b0, sink((0, 1), (0, 2), (0, 3)), sink((0, 1))], tk)
+
+    b0 = _B()
+    x = b0.inp()
+    shared, other, third = b0.op(x), b0.op(x), x
+    o = b0.op(x)
+    for data_, dst, tag in ((shared, 1, 1), (other, 2, 1), (shared, 2, 2), (third, 1, 2),
+                            (shared, 1, 3)):
+        o = b0.hold(data_, dst, tag, o)
+    b0.out("out", o)
+    yield _prog(f"lib/shared_array_three_sends{sfx}",
+                [b0, sink((0, 1), (0, 2), (0, 3)), sink((0, 1), (0, 2))], tk)
 
     # a send whose data contains the holder of another send (both must be sent):
     # same round / the inner send one round later (its data needs a receive
